@@ -416,6 +416,236 @@ impl G {
   }
 }
 
+impl G {
+  /// a rune-centred transaction: spends outputs that hold runes, several outputs, dense edicts
+  fn gen_rune_tx(&mut self) -> Option<TxSpec> {
+    // candidates: outputs that may hold runes and are still unspent
+    let cands: Vec<usize> = (0..self.utxos.len())
+      .filter(|i| self.runic.contains(&self.utxos[*i].label))
+      .collect();
+    if cands.is_empty() {
+      return None;
+    }
+    let label = format!("{}t{}", self.tag, self.next_tx);
+    self.next_tx += 1;
+    let n_in = self.rng.gen_range(1..=3.min(cands.len()));
+    let mut picked: Vec<usize> = cands.choose_multiple(&mut self.rng, n_in).copied().collect();
+    picked.sort_unstable_by(|a, b| b.cmp(a));
+    let mut ins = Vec::new();
+    for i in picked {
+      ins.push(self.utxos.remove(i));
+    }
+    let total: u64 = ins.iter().map(|u| u.v).sum();
+    let n_out = self.rng.gen_range(2..=5);
+    let mut outs = Vec::new();
+    let stone_at = match self.rng.gen_range(0..3) {
+      0 => 0,
+      1 => n_out - 1,
+      _ => self.rng.gen_range(0..n_out),
+    };
+    let share = total / (n_out as u64);
+    for i in 0..n_out {
+      let (t, s) = if i == stone_at {
+        ("stone".to_string(), 0)
+      } else if self.rng.gen_bool(0.12) {
+        ("opret".to_string(), self.rng.gen_range(0..3))
+      } else {
+        ("tr".to_string(), self.rng.gen_range(0..4))
+      };
+      let v = if t == "stone" || t == "opret" { 0 } else { share };
+      outs.push(OutSpec { v, t, s });
+    }
+    let mut stone = StoneSpec::default();
+    let n_ed = self.rng.gen_range(0..=4);
+    for _ in 0..n_ed {
+      let rune = if self.rng.gen_bool(0.08) {
+        "none".to_string()
+      } else {
+        self.runes.choose(&mut self.rng).map(|r| r.0.clone()).unwrap_or("none".into())
+      };
+      let amount = match self.rng.gen_range(0..6) {
+        0 | 1 => 0,
+        2 => 1,
+        _ => self.rng.gen_range(1..9),
+      };
+      let output = if self.rng.gen_bool(0.4) {
+        n_out as u32
+      } else {
+        self.rng.gen_range(0..n_out as u32)
+      };
+      stone.edicts.push(EdictSpec { rune, amount, output });
+    }
+    if self.rng.gen_bool(0.35) {
+      stone.pointer = Some(self.rng.gen_range(0..n_out as u32));
+    }
+    if self.rng.gen_bool(0.3) {
+      let with_terms: Vec<String> = self.runes.iter().filter(|r| r.1).map(|r| r.0.clone()).collect();
+      stone.mint = with_terms.choose(&mut self.rng).cloned();
+    }
+    if self.rng.gen_bool(0.06) {
+      let flaws = ["evenTag", "flag", "trailing", "edictOutput", "opcode", "varint"];
+      stone.flaw = Some(flaws.choose(&mut self.rng).unwrap().to_string());
+    }
+    let mut tx = TxSpec {
+      label: label.clone(),
+      ins: ins.iter().map(|u| u.label.clone()).collect(),
+      outs,
+      ..Default::default()
+    };
+    if self.rng.gen_bool(0.9) {
+      tx.stone = Some(stone);
+    } else {
+      // no runestone at all: the carrier becomes a plain OP_RETURN
+      tx.outs[stone_at].t = "opret".into();
+    }
+    for (i, o) in tx.outs.iter().enumerate() {
+      if o.t != "opret" && o.t != "stone" {
+        self.utxos.push(Utxo {
+          label: format!("{label}:{i}"),
+          v: o.v,
+          t: o.t.clone(),
+          h: self.height + 1,
+        });
+        self.runic.push(format!("{label}:{i}"));
+      }
+    }
+    Some(tx)
+  }
+
+  /// an etching with a valid commitment when a mature taproot output exists
+  fn gen_etch_tx(&mut self) -> Option<TxSpec> {
+    let h = self.height + 1;
+    let pos = self.utxos.iter().position(|u| u.t == "tr" && h >= u.h + 6 && u.v > 0 && !self.runic.contains(&u.label))?;
+    let input = self.utxos.remove(pos);
+    let label = format!("{}t{}", self.tag, self.next_tx);
+    self.next_tx += 1;
+    let name = name_from(self.next_tx * 977 + 31, 14);
+    let n_out = self.rng.gen_range(2..=4);
+    let mut outs = Vec::new();
+    for i in 0..n_out {
+      if i == 0 {
+        outs.push(OutSpec { v: 0, t: "stone".into(), s: 0 });
+      } else {
+        outs.push(OutSpec { v: input.v / (n_out as u64), t: "tr".into(), s: self.rng.gen_range(0..4) });
+      }
+    }
+    let mut terms = None;
+    let has_terms = self.rng.gen_bool(0.7);
+    if has_terms {
+      terms = Some(TermsSpec {
+        cap: Some(self.rng.gen_range(1..6)),
+        amount: Some(self.rng.gen_range(1..12)),
+        hs: None,
+        he: if self.rng.gen_bool(0.3) { Some(h as u64 + self.rng.gen_range(2..10)) } else { None },
+        os: if self.rng.gen_bool(0.3) { Some(self.rng.gen_range(0..3)) } else { None },
+        oe: None,
+      });
+    }
+    let stone = StoneSpec {
+      etching: Some(EtchSpec {
+        name: Some(name.clone()),
+        premine: Some(self.rng.gen_range(5..60)),
+        terms,
+      }),
+      edicts: if self.rng.gen_bool(0.5) {
+        vec![EdictSpec { rune: "self".into(), amount: 0, output: n_out as u32 }]
+      } else {
+        Vec::new()
+      },
+      ..Default::default()
+    };
+    self.names.push(name.clone());
+    self.runes.push((label.clone(), has_terms));
+    let tx = TxSpec {
+      label: label.clone(),
+      ins: vec![input.label.clone()],
+      outs,
+      stone: Some(stone),
+      commits: vec![CommitSpec { input: 0, name }],
+      ..Default::default()
+    };
+    for (i, o) in tx.outs.iter().enumerate() {
+      if o.t == "tr" {
+        self.utxos.push(Utxo { label: format!("{label}:{i}"), v: o.v, t: o.t.clone(), h });
+        self.runic.push(format!("{label}:{i}"));
+      }
+    }
+    Some(tx)
+  }
+}
+
+/// Rune-dense scenario: mature taproot outputs, a few valid etchings, then many transfers.
+pub fn runes(seed: u64, tag: &str, blocks: usize, flags: &[&str]) -> Scenario {
+  let mut g = G::new(seed, tag);
+  let plain = GenCfg { blocks: 0, max_txs: 0, inscriptions: false, runes: false, update_every: 0, reopen: false, dup_coinbase: false, junk: false };
+  let mut steps = Vec::new();
+  for b in 0..blocks {
+    // build the transactions first, then let next_block add the coinbase
+    let mut txs = Vec::new();
+    if b >= 6 {
+      if g.runes.len() < 3 && g.rng.gen_bool(0.6) {
+        if let Some(t) = g.gen_etch_tx() {
+          txs.push(t);
+        }
+      }
+      for _ in 0..g.rng.gen_range(0..=3) {
+        if let Some(t) = g.gen_rune_tx() {
+          txs.push(t);
+        }
+      }
+    }
+    let mut block = g.next_block(&plain);
+    // next_block generated no transactions (max_txs = 0); splice ours in and fix the coinbase value
+    let mut fees = 0u64;
+    for t in &txs {
+      let tin: u64 = t.ins.iter().map(|l| g.values[l]).sum();
+      let tout: u64 = t.outs.iter().map(|o| o.v).sum();
+      fees += tin - tout;
+      for (i, o) in t.outs.iter().enumerate() {
+        g.values.insert(format!("{}:{i}", t.label), o.v);
+      }
+    }
+    let n_cb = block.cb.len();
+    if let Some(last) = block.cb.last_mut() {
+      last.v += fees;
+      let l = format!("c{}:{}", block.id, n_cb - 1);
+      g.values.insert(l.clone(), last.v);
+      let v = last.v;
+      for u in g.utxos.iter_mut().filter(|u| u.label == l) {
+        u.v = v;
+      }
+    }
+    // coinbase outputs of this family are taproot so that commitments can mature
+    for (i, o) in block.cb.iter_mut().enumerate() {
+      if o.t != "tr" {
+        let l = format!("c{}:{i}", block.id);
+        o.t = "tr".into();
+        if !g.utxos.iter().any(|u| u.label == l) {
+          g.utxos.push(Utxo { label: l.clone(), v: o.v, t: "tr".into(), h: g.height });
+        }
+        for u in g.utxos.iter_mut().filter(|u| u.label == l) {
+          u.t = "tr".into();
+        }
+      }
+    }
+    block.txs = txs;
+    steps.push(Step::Block(block));
+    if (b + 1) % 3 == 0 {
+      steps.push(Step::Update);
+    }
+  }
+  steps.push(Step::Update);
+  Scenario {
+    name: format!("{tag}-runes-seed{seed}"),
+    chain: "regtest".into(),
+    flags: flags.iter().map(|s| s.to_string()).collect(),
+    commit_interval: None,
+    savepoint_interval: None,
+    max_savepoints: None,
+    steps,
+  }
+}
+
 /// Generate a ledger-family scenario.
 pub fn ledger(seed: u64, tag: &str, cfg: &GenCfg, flags: &[&str], chain: &str) -> Scenario {
   let mut g = G::new(seed, tag);
